@@ -96,10 +96,10 @@ def range_rule(ctx: Ctx, rid: str = "R18.range") -> None:
         if name == "_read_value":
             cells = [(i, e.expr.args[0] if e.expr.args else None, e) for i, (k, s_, c, e) in enumerate(effs) if k == "call"
                      and isinstance(e.expr, ast.Call) and isinstance(e.expr.func, ast.Attribute) and e.expr.func.attr in ("get", "__getitem__", "setdefault")
-                     and fl.canon(e.expr.func.value) == "P0.memory_file"]
+                     and fl.canon(e.expr.func.value).split("@")[0] == "P0.memory_file"]
         else:
             cells = [(i, e.expr.targets[0].slice, e) for i, (k, s_, c, e) in enumerate(effs) if k == "store"
-                     and isinstance(e.expr.targets[0], ast.Subscript) and fl.canon(e.expr.targets[0].value) == "P0.memory_file"]  # type: ignore[attr-defined]
+                     and isinstance(e.expr.targets[0], ast.Subscript) and fl.canon(e.expr.targets[0].value).split("@")[0] == "P0.memory_file"]  # type: ignore[attr-defined]
         key = f"Memory.{name}|access"
         if len(cells) != 1:
             r.check(False, key, f.loc(), f"Memory.{name}: expected exactly one cell access (memory_file[k] / memory_file.get(k, ..)), found {len(cells)}")
